@@ -463,7 +463,7 @@ theorem next_le (n : Int) (r : Reader) : r.Le (next n r).2 := by
 
 /-! ### checkLength -/
 
-theorem checkLength_ok {len : Int} {r r' : Reader} {u : Unit} (h : checkLength len r = (.ok u, r')) :
+theorem checkLength_ok_inv {len : Int} {r r' : Reader} {u : Unit} (h : checkLength len r = (.ok u, r')) :
     r' = r ∧ 0 ≤ len ∧ len.toNat ≤ r.remaining := by
   unfold checkLength at h
   split at h
